@@ -7,8 +7,12 @@
   world pose of rig-mounted cameras.  Every statement is for ALL inputs: any number of images, matches, rows, points and
   observations; the only bound is the one the code has (`MAX_IMAGE_ID`, a hypothesis).  SQLite, text files, numpy blobs
   and float printing are exercised by the export -> import loops of harness/c13.py, not proved.
+  The TEXT layer of the reconstruction files (tokens joined by single blanks, tokenised by `[^,\s]+`, image names of
+  several words, the two-lines-per-image layout of images.txt) is Model/C13Text.lean and the last theorems of this file.
 -/
 import Kapture.Lemmas.C13
+import Kapture.Lemmas.C13Text
+import Kapture.Props.Csv
 import Kapture.Props.C05
 import Kapture.Props.C06
 
@@ -273,3 +277,175 @@ example : (exportPoints [("b.jpg", 1), ("a.jpg", 2)] [(["x", "y", "z"], [("a.jpg
     = some [(["x", "y", "z", zeroTok, zeroTok, zeroTok], [("a.jpg", 4)])] := by decide
 
 end Kapture.C13
+
+namespace Kapture.C13Text
+open Kapture.Csv
+
+/-- TEXT LAYER, one line: any list of tokens (non-empty, without comma or blank) written with single blanks between them is
+  tokenised back to itself by the importer's `re.findall(r'[^,\s]+', line)` — this covers every line of cameras.txt and
+  points3D.txt -/
+theorem line_tokens_roundtrip (fields : List Str) (h : ∀ f ∈ fields, TokenOK f) : tokens (spaceJoin fields) = fields :=
+  tokens_spaceJoin fields h
+
+/-- TEXT LAYER, points3D.txt: the line of a point is tokenised to its fields: id, coordinates, colour, the error field, then
+  the (image id, feature index) pairs of the track in order -/
+theorem point_line_tokens (i : Nat) (xyz rgb : List Str) (track : List (Int × Int))
+    (h : ∀ f ∈ xyz ++ rgb, TokenOK f) :
+    tokens (pointLine i xyz rgb track) =
+      [showInt (Int.ofNat i)] ++ xyz ++ rgb ++ [['0']] ++ track.flatMap (fun p => [showInt p.1, showInt p.2]) := by
+  apply tokens_spaceJoin
+  intro f hf
+  simp only [List.mem_append, List.mem_cons, List.not_mem_nil, or_false, List.mem_flatMap] at hf
+  rcases hf with (((rfl | hf) | hf) | rfl) | ⟨p, _, rfl | rfl⟩
+  · exact tokenOK_showInt _
+  · exact h f (List.mem_append_left _ hf)
+  · exact h f (List.mem_append_right _ hf)
+  · exact ⟨by simp, by decide⟩
+  · exact tokenOK_showInt _
+  · exact tokenOK_showInt _
+
+/-- TEXT LAYER, cameras.txt -/
+theorem camera_line_tokens (id : Int) (model w h : Str) (params : List Str)
+    (hm : TokenOK model) (hw : TokenOK w) (hh : TokenOK h) (hp : ∀ f ∈ params, TokenOK f) :
+    tokens (cameraLine id model w h params) = [showInt id, model, w, h] ++ params := by
+  apply tokens_spaceJoin
+  intro f hf
+  simp only [List.mem_append, List.mem_cons, List.not_mem_nil, or_false] at hf
+  rcases hf with (rfl | rfl | rfl | rfl) | hf
+  · exact tokenOK_showInt _
+  · exact hm
+  · exact hw
+  · exact hh
+  · exact hp f hf
+
+/-- TEXT LAYER, images.txt, one image: identifier, the seven pose tokens, camera identifier and the NAME come back — a name of
+  several words separated by single blanks included (`' '.join(fields[9:])`) -/
+theorem image_line_roundtrip (id cam : Int) (pose : List Str) (name : Str)
+    (hp : pose.length = 7) (hpt : ∀ f ∈ pose, TokenOK f) (hn : NameOK name) :
+    decodeImageLine (imageLine id pose cam name) = some (id, pose, cam, name) := by
+  obtain ⟨words, hw, hwt, rfl⟩ := hn
+  have hline : imageLine id pose cam (spaceJoin words) = spaceJoin ([showInt id] ++ pose ++ [showInt cam] ++ words) := by
+    unfold imageLine
+    have := spaceJoin_append_words ([showInt id] ++ pose ++ [showInt cam]) words hw
+    simpa [List.append_assoc] using this
+  have hall : ∀ f ∈ [showInt id] ++ pose ++ [showInt cam] ++ words, TokenOK f := by
+    intro f hf
+    simp only [List.mem_append, List.mem_cons, List.not_mem_nil, or_false] at hf
+    rcases hf with ((rfl | hf) | rfl) | hf
+    · exact tokenOK_showInt _
+    · exact hpt f hf
+    · exact tokenOK_showInt _
+    · exact hwt f hf
+  obtain ⟨wi, lastw, rfl⟩ : ∃ wi lastw, words = wi ++ [lastw] := by
+    rcases List.eq_nil_or_concat words with e | ⟨l, c, e⟩
+    · exact absurd e hw
+    · exact ⟨l, c, by simpa using e⟩
+  have hrs : rstrip (spaceJoin ([showInt id] ++ pose ++ [showInt cam] ++ (wi ++ [lastw]))) =
+      spaceJoin ([showInt id] ++ pose ++ [showInt cam] ++ (wi ++ [lastw])) := by
+    rw [← List.append_assoc]
+    exact rstrip_spaceJoin _ lastw (hwt lastw (by simp))
+  unfold decodeImageLine
+  rw [hline, hrs, tokens_spaceJoin _ hall]
+  obtain ⟨q0, q1, q2, q3, q4, q5, q6, rfl⟩ : ∃ a b c d e f g, pose = [a, b, c, d, e, f, g] := by
+    match pose, hp with
+    | [a, b, c, d, e, f, g], _ => exact ⟨a, b, c, d, e, f, g, rfl⟩
+  simp [readInt_showInt' id, readInt_showInt' cam]
+
+/-- TEXT LAYER, images.txt, the whole file: the first pass of the importer over the file the exporter writes finds exactly the
+  posed images, in order, each with its identifier, pose tokens, camera and name — for any number of images, with or without
+  a POINTS2D line (an image without keypoints has an EMPTY second line, which keeps the parity of the lines) -/
+theorem images_first_pass (n : Nat) (es : List ImageEntry)
+    (h : ∀ e ∈ es, e.pose.length = 7 ∧ (∀ f ∈ e.pose, TokenOK f) ∧ NameOK e.name ∧
+      ∀ p ∈ e.p2d, TokenOK p.1 ∧ TokenOK p.2.1 ∧ TokenOK p.2.2 ∧ p.1.head? ≠ some '#') :
+    imagesFirstPass (imagesTxt n es) = es.map (fun e => some (e.id, e.pose, e.cam, e.name)) := by
+  -- every line is free of '\n'
+  have hp2tok : ∀ e ∈ es, ∀ f ∈ e.p2d.flatMap (fun p => [p.1, p.2.1, p.2.2]), TokenOK f := by
+    intro e he f hf
+    obtain ⟨p, hp, hfp⟩ := List.mem_flatMap.1 hf
+    obtain ⟨h1, h2, h3, _⟩ := (h e he).2.2.2 p hp
+    simp only [List.mem_cons, List.not_mem_nil, or_false] at hfp
+    rcases hfp with rfl | rfl | rfl <;> assumption
+  have himg_tokens : ∀ e ∈ es, ∃ fields, (∀ f ∈ fields, TokenOK f) ∧ imageLine e.id e.pose e.cam e.name = spaceJoin (showInt e.id :: fields) := by
+    intro e he
+    obtain ⟨_, hpt, ⟨words, hw, hwt, hname⟩, _⟩ := h e he
+    refine ⟨e.pose ++ [showInt e.cam] ++ words, ?_, ?_⟩
+    · intro f hf
+      simp only [List.mem_append, List.mem_cons, List.not_mem_nil, or_false] at hf
+      rcases hf with (hf | rfl) | hf
+      · exact hpt f hf
+      · exact tokenOK_showInt _
+      · exact hwt f hf
+    · unfold imageLine
+      rw [hname]
+      have := spaceJoin_append_words ([showInt e.id] ++ e.pose ++ [showInt e.cam]) words hw
+      simpa [List.append_assoc] using this
+  have hnl : ∀ l ∈ imagesHeaderLines n ++ es.flatMap (fun e => [imageLine e.id e.pose e.cam e.name, points2dLine e.p2d]), '\n' ∉ l := by
+    intro l hl
+    rcases List.mem_append.1 hl with hl | hl
+    · simp only [imagesHeaderLines, List.mem_cons, List.not_mem_nil, or_false] at hl
+      rcases hl with rfl | rfl | rfl | rfl
+      · decide
+      · decide
+      · decide
+      · intro hm
+        rcases List.mem_append.1 hm with hm | hm
+        · revert hm; decide
+        · have := ((showInt_chars _ _ hm).facts).2.1
+          exact this rfl
+    · obtain ⟨e, he, hle⟩ := List.mem_flatMap.1 hl
+      simp only [List.mem_cons, List.not_mem_nil, or_false] at hle
+      rcases hle with rfl | rfl
+      · obtain ⟨fields, hf, heq⟩ := himg_tokens e he
+        rw [heq]
+        apply no_newline_of_tokens
+        intro p hp
+        rcases List.mem_cons.1 hp with rfl | hp
+        · exact (tokenOK_showInt _).2
+        · exact (hf p hp).2
+      · exact no_newline_of_tokens _ (fun p hp => (hp2tok e he p hp).2)
+  unfold imagesFirstPass imagesTxt
+  rw [linesOf_unlines _ hnl, List.filter_append]
+  have hhdr : (imagesHeaderLines n).filter (fun l => !isComment l) = [] := by
+    simp [imagesHeaderLines, isComment]
+  rw [hhdr, List.nil_append]
+  -- the data lines all survive the comment filter, and every other one is an image line
+  clear hnl hhdr
+  induction es with
+  | nil => rfl
+  | cons e t ih =>
+    have he := h e (by simp)
+    have hkeep1 : isComment (imageLine e.id e.pose e.cam e.name) = false := by
+      obtain ⟨fields, _, heq⟩ := himg_tokens e (by simp)
+      rw [heq]
+      unfold isComment
+      rw [head_spaceJoin_cons _ _ (showInt_ne_nil _)]
+      have := (showInt_fieldOK' e.id).2.2
+      cases hh : (showInt e.id).head? with
+      | none => rfl
+      | some c => simp; intro e'; rw [e'] at hh; exact this hh
+    have hkeep2 : isComment (points2dLine e.p2d) = false := by
+      unfold isComment points2dLine
+      cases hp : e.p2d with
+      | nil => rfl
+      | cons p ps =>
+        have := (he.2.2.2 p (by rw [hp]; simp))
+        simp only [List.flatMap_cons, List.cons_append]
+        rw [head_spaceJoin_cons _ _ this.1.1]
+        cases hh : p.1.head? with
+        | none => rfl
+        | some c => simp; intro e'; rw [e'] at hh; exact this.2.2.2 hh
+    simp only [List.flatMap_cons, List.cons_append, List.nil_append, List.filter_cons, hkeep1, hkeep2, Bool.not_false, if_true,
+      everyOther, List.map_cons]
+    rw [ih (fun e' he' => h e' (List.mem_cons_of_mem _ he')) (fun e' he' => hp2tok e' (List.mem_cons_of_mem _ he'))
+      (fun e' he' => himg_tokens e' (List.mem_cons_of_mem _ he'))]
+    rw [image_line_roundtrip e.id e.cam e.pose e.name he.1 he.2.1 he.2.2.1]
+
+-- non-vacuity: a name of two words, an image without keypoints followed by one with keypoints
+example : imagesFirstPass (imagesTxt 2
+    [{ id := 1, pose := ["1.0", "0.0", "0.0", "0.0", "0.5", "-2.0", "1e-07"].map String.toList, cam := 1, name := "seq a/img 1.jpg".toList, p2d := [] },
+     { id := 2, pose := ["1.0", "0.0", "0.0", "0.0", "0.5", "-2.0", "3.0"].map String.toList, cam := 1, name := "b.jpg".toList,
+       p2d := [("1.5".toList, "2.5".toList, "-1".toList)] }])
+    = [some (1, ["1.0", "0.0", "0.0", "0.0", "0.5", "-2.0", "1e-07"].map String.toList, 1, "seq a/img 1.jpg".toList),
+       some (2, ["1.0", "0.0", "0.0", "0.0", "0.5", "-2.0", "3.0"].map String.toList, 1, "b.jpg".toList)] := by decide +kernel
+
+end Kapture.C13Text
